@@ -862,3 +862,10 @@ package genql
 //@ func extractColumnsFromExpr
 //@   ensures a-column-belongs-to-the-alias-that-is-its-first-segment[C04]: err == nil ==> result0 == (ident == result1)
 //@   ensures only-column-names[C04]: !typeis(expr, *sqlparser.ColName) ==> err != nil
+
+// C18: HASH and ENCODE work on the gob form of their first argument, produced into a buffer that belongs to the call
+// (nothing left over from an earlier call can be part of what is digested or encoded)
+//@ func HashFunc
+//@   at-call NewEncoder assert gob-form-goes-into-a-buffer-of-this-call[C18]: typeis(arg0, *bytes.Buffer) && fresh(arg0.(*bytes.Buffer))
+//@ func EncodeFunc
+//@   at-call NewEncoder assert gob-form-goes-into-a-buffer-of-this-call[C18]: typeis(arg0, *bytes.Buffer) && fresh(arg0.(*bytes.Buffer))
